@@ -90,6 +90,9 @@ type run struct {
 	start     time.Time
 	poolStart time.Time // creation instant of the current pool (its tickers count from here)
 	stopped   string
+	// global limits exceeded / number of transactions held just before the current submission
+	overBefore  bool
+	countBefore int
 	hard      bool         // a violation that ends the run was recorded
 	wasLocal  []bool       // senders that were local before the current operation
 	optLocal  bool         // the optional transactions of the current check were local submissions
